@@ -18,6 +18,7 @@ Which == IOEnv.SCALEPROP        \* "C15": every bound; "C01": nothing premature;
 VARIABLES l, bad
 vars == <<l, bad>>
 
+ChainShapes == {"chain", "chain2ring"}
 MaxDepth == 3          \* Rc::drop -> value -> inert nested Rc::drop
 RatioX10 == 40         \* per-adoption CPU time of the 60000-wheel <= 4 x that of the 5000-wheel
 
@@ -25,12 +26,20 @@ Ok(ln) ==
   CASE ln.k = "scale" ->
          /\ Which \in {"C15", "C03"} => ln.nd = ln.n /\ ~ln.alive
          /\ Which \in {"C15", "C01"} => ln.premature = 0   \* "+held" runs: nothing dies while a member is held
-         /\ Which = "C15" =>
+         /\ Which = "C15" /\ ln.shape \notin ChainShapes =>
               /\ ln.ntrace = 1
               /\ ln.nvisit <= ln.n
               /\ ln.npop <= ln.links + 1
               /\ ln.maxdepth <= MaxDepth
               /\ ln.ratio_x10 <= RatioX10
+         \* acyclic adopter chains (alone, or in front of a ring) die by the plain last-handle
+         \* path, one inside the other (that recursion is Rust's, not the collector's: these
+         \* shapes run on a large stack); the work of the whole teardown stays linear
+         /\ Which = "C15" /\ ln.shape \in ChainShapes =>
+              /\ ln.nvisit <= 4 * (ln.n + ln.links)
+              /\ ln.npop <= 4 * (ln.n + ln.links)
+         \* the price of a small group does not depend on what was collected before it
+         /\ Which = "C15" => ln.small_after <= 2 * ln.small_before + 4096
     [] ln.k = "scale_begin" -> TRUE
     [] ln.k \in {"scale_died", "scale_panic"} -> FALSE     \* stack overflow / crash
     [] OTHER -> TRUE
